@@ -532,6 +532,29 @@ def field_classes(prog, ci):
     return out
 
 
+def _with_evaluated_table(prog, call):
+    """Run a shared rule that enumerates the key-material classes through sa.tables.keymaterial_table (which reads ONE dict
+    literal inside pkalg_int) with the table this module evaluates per (kind, algorithm) scenario instead - so that the shared
+    rule sees the same classes when the table is a class constant, two tables, an if-chain ..."""
+    from sa import tables
+    ci = prog.cls('pgpy.packet.packets', 'PubKeyV4')
+    f = ci.methods.get('pkalg_int')
+    if f is None:
+        raise AnalysisError('PubKeyV4.pkalg_int vanished')
+    tbl = {}
+    for a, val in prog.cls('pgpy.constants', 'PubKeyAlgorithm').enum_members().items():
+        for public in (True, False):
+            c = selected_material(prog, f, public, Const(Enum('PubKeyAlgorithm', a, val)))
+            if not c.name.startswith('Opaque'):
+                tbl[(public, a)] = c.name
+    orig = tables.keymaterial_table
+    tables.keymaterial_table = lambda _prog: (f, tbl)
+    try:
+        return call()
+    finally:
+        tables.keymaterial_table = orig
+
+
 def check_copy_fidelity(rep, prog):
     """The public twin is assembled from copy.copy(uid) / copy.copy(sig) / packet copies.  (1) those copies are complete and keep
     the received octets (the shared copy rules of C14.4, filed here under C07.7: a copy that re-encodes or drops a field changes
@@ -539,6 +562,9 @@ def check_copy_fidelity(rep, prog):
     receiver's own class, and a field copied with copy.copy() whose class has a __copy__ gets an object of that same class."""
     from rules import C14
     C14.copies(_Renamed(rep, {'C14.4': 'C07.7'}), prog)
+    # (3) the key material copied into the public packet (and every field object it holds, e.g. EC points) carries each attribute
+    # its serialiser reads - a width recomputed from the value changes the octets, hence the fingerprint of the public twin
+    _with_evaluated_table(prog, lambda: families.check_copy_carries_serialised(rep, prog, 'C07.7'))
     pk = prog.module('pgpy.packet.packets')
     seen = set()
 
